@@ -215,8 +215,12 @@ class RenderRanges(Bounded):
         p = os.path.join(self.dir, "f%d.bin" % n)
         if not os.path.exists(p):
             with open(p, "wb") as f:
-                f.write(bytes(range(65, 65 + n)))
+                f.write(self._content(n))
         return p
+
+    @staticmethod
+    def _content(n):
+        return bytes(range(65, 65 + n)) if n < 100 else bytes([(i * 7 + i // 251) % 256 for i in range(n)])
 
     def cases(self, tier, rng):
         nums = [b"", b"0", b"1", b"3", b"5"]
@@ -231,6 +235,14 @@ class RenderRanges(Bounded):
             for h in headers:
                 for method in (b"GET", b"HEAD"):
                     yield (n, h, method)
+        # parts and separators that straddle the producers' 64 KiB write buffer
+        big = 70000
+        ends = range(65300, 65540, 7) if tier == "quick" else range(65200, 65560)
+        for e in ends:
+            yield (big, b"bytes=0-%d,%d-%d" % (e, e + 1, e + 10), b"GET")
+        for h in (b"bytes=0-65535", b"bytes=1-65536", b"bytes=65535-", b"bytes=-65537", b"bytes=0-69999,0-0",
+                  b"bytes=10-65545,65546-69999,5-6"):
+            yield (big, h, b"GET")
 
     def nontrivial(self, case):
         return case[1] is not None and case[1].startswith(b"bytes=")
@@ -238,7 +250,7 @@ class RenderRanges(Bounded):
     def check(self, case):
         from twisted.web.test.requesthelper import DummyRequest
         n, header, method = case
-        content = bytes(range(65, 65 + n))
+        content = self._content(n)
         f = static.File(self._file(n))
         f.type, f.encoding = "text/plain", None
         req = DummyRequest([b""])
